@@ -143,6 +143,14 @@ def shared_cases(rng, n):
         objs = [spec(rng.choice(roots), types, rules) + flag for _ in range(k)]
         ops = ['%s%d' % (rng.choice('cleauo'), rng.randrange(k)) for _ in range(rng.randint(3, 12))]
         cs.append(Case('hist ' + ' ; '.join(objs) + ' ;; ' + ' '.join(ops), 'shared-type-objects', meta=(objs, ops)))
+        # the same objects, but every schema is given a subset of them only (what the others were given must not count)
+        k = rng.randint(2, 3)
+        objs = []
+        for _ in range(k):
+            names = [n for n in types if rng.random() < 0.7]
+            objs.append(spec(rng.choice(roots), {n: types[n] for n in names}, rules) + ' share')
+        ops = ['%s%d' % (rng.choice('cleauo'), rng.randrange(k)) for _ in range(rng.randint(3, 10))]
+        cs.append(Case('hist ' + ' ; '.join(objs) + ' ;; ' + ' '.join(ops), 'shared-type-objects-subsets', meta=(objs, ops)))
     return cs
 
 
@@ -150,8 +158,22 @@ def unshared(sp):
     return sp[:-len(' share')] if sp.endswith(' share') else sp
 
 
+def shared_objects_with_other_types(case, reason):
+    """F10a: the schemas of the history are given the same type objects (flag share) but not the same set of them"""
+    body = case.line[len('hist '):].split(' ;; ')[0]
+    objs = body.split(' ; ')
+    if not all(o.endswith(' share') for o in objs) or len(objs) < 2:
+        return False
+    sets = []
+    for o in objs:
+        t = o.split(' ')
+        sets.append(frozenset(t[i + 1] for i in range(len(t) - 1) if t[i] == 'T'))
+    return len(set(sets)) > 1
+
+
 class Prop:
     id = 'C10'
+    known_matchers = {'shared_objects_with_other_types': shared_objects_with_other_types}
     level = 'proof'
     theorems_file = 'Properties/C10.v'
     gen_tables = ['PoolSites']
